@@ -6,6 +6,7 @@ import XtModel.Model.Output
 import XtModel.Model.Input
 import XtModel.Model.Detect
 import XtModel.Model.TomlOrder
+import XtModel.Model.Json
 
 /-!
 Native driver: one case per input line, one answer per output line
@@ -188,7 +189,7 @@ def kindOfTok : String → Option Chunker.Kind
   | "QS" => some .seqStart | "QE" => some .seqEnd | "MS" => some .mapStart | "ME" => some .mapEnd
   | _ => none
 
-def siteName : Chunker.Site → String
+def chunkSiteName : Chunker.Site → String
   | .trimSub => "trimSub" | .trimTryFrom => "trimTryFrom" | .drainRange => "drainRange"
   | .trimIndex => "trimIndex" | .trimOffsetDec => "trimOffsetDec"
   | .takeSub => "takeSub" | .takeTryFrom => "takeTryFrom" | .splitOffRange => "splitOffRange"
@@ -213,7 +214,7 @@ def chunkerAnswer (r : Chunker.Result) : String :=
     "doc:" ++ toHex e.doc.content ++ ":" ++ (if e.doc.isCollection then "c" else "n")
   let fin := match r.fin with
     | .done => "end" | .err => "err" | .incomplete => "incomplete"
-    | .panic s => "panic:" ++ siteName s
+    | .panic s => "panic:" ++ chunkSiteName s
   " ".intercalate (docs ++ [fin])
 
 def chunker (fs : List String) : String :=
@@ -235,7 +236,7 @@ def chunker (fs : List String) : String :=
         | none, some .misbehaving => "handler:misbehaving"
         | none, _ => "handler:failure"
       let cTok := match Chunker.handlerOverChunkReader size [] none ⟨[], 0⟩ res with
-        | .panic s => "chunker:panic:" ++ siteName s
+        | .panic s => "chunker:panic:" ++ chunkSiteName s
         | .ok (h, _) => match h.copyLen with
           | some _ => "chunker:accept"
           | none => "chunker:failure"
@@ -325,6 +326,68 @@ def output (fs : List String) : String :=
     | none => "bad-case"
   | _ => "bad-case"
 
+/-! ### json / jsonstr / jsonnum -/
+open Xt.Json in
+def errName : Err → String
+  | .eofList => "eofList" | .eofObject => "eofObject" | .eofString => "eofString"
+  | .eofValue => "eofValue" | .expectedColon => "expectedColon"
+  | .expectedListCommaOrEnd => "expectedListCommaOrEnd"
+  | .expectedObjectCommaOrEnd => "expectedObjectCommaOrEnd"
+  | .expectedIdent => "expectedIdent" | .expectedValue => "expectedValue"
+  | .invalidEscape => "invalidEscape" | .invalidNumber => "invalidNumber"
+  | .numberOutOfRange => "numberOutOfRange" | .invalidUnicode => "invalidUnicode"
+  | .controlChar => "controlChar" | .keyMustBeString => "keyMustBeString"
+  | .loneSurrogate => "loneSurrogate" | .trailingComma => "trailingComma"
+  | .trailingChars => "trailingChars" | .unexpectedEndOfHexEscape => "unexpectedEndOfHexEscape"
+  | .recursionLimit => "recursionLimit" | .utf8 => "utf8"
+
+open Xt.Json in
+def verdictName : Verdict → String
+  | .ok => "ok"
+  | .err e => errName e
+
+open Xt.Json in
+def json (fs : List String) : String :=
+  match fs with
+  | ["json", hex] =>
+    match parseHex hex with
+    | some bs =>
+      let (sd, sv) := sliceLoop bs
+      let (rd, rv) := readerLoop bs
+      let k1 := if hasUnseparatedScalar bs then 1 else 0
+      s!"slice:{verdictName sv}:{sd.length} reader:{verdictName rv}:{rd.length} k1:{k1} out:{toHex (writeDocs markerFloat rd)}"
+    | none => "bad-case"
+  | ["jsondetect", hex] =>
+    match parseHex hex with
+    | some bs =>
+      let ign := match ignoreValue bs with
+        | .ok rest => s!"ok:{bs.length - rest.length}"
+        | .error e => "err:" ++ errName e
+      let b (x : Bool) : String := if x then "1" else "0"
+      s!"slice:{b (trialSlice bs)} reader:{b (trialReader bs)} ign:{ign}"
+    | none => "bad-case"
+  | ["jsonstr", hex] =>
+    match parseHex hex with
+    | some (0x22 :: bs) =>
+      match parseStr bs with
+      | .error e => "err:" ++ errName e
+      | .ok (cps, rest) =>
+        if (skipWs rest).isEmpty then "ok:" ++ toHex (cps.flatMap utf8) else "err:trailingChars"
+    | _ => "bad-case"
+  | ["jsonnum", hex] =>
+    match parseHex hex with
+    | some bs =>
+      match parseValue depthLimit (0x5B :: bs ++ [0x5D]) with
+      | .error e => "err:" ++ errName e
+      | .ok (v, rest) =>
+        if !(skipWs rest).isEmpty then "err:trailingChars" else
+        match v with
+        | .arr [.int i] => if i < 0 then s!"i64:{i}" else s!"u64:{i}"
+        | .arr [.float src] => "float:" ++ toHex src
+        | _ => "other"
+    | none => "bad-case"
+  | _ => "bad-case"
+
 def answer (fs : List String) : String :=
   match fs with
   | "encdetect" :: _ | "reencode" :: _ | "reencstream" :: _ => encoding fs
@@ -335,6 +398,7 @@ def answer (fs : List String) : String :=
   | "tomlorder" :: _ => tomlorder fs
   | "chunker" :: _ | "guards" :: _ => chunker fs
   | "frame" :: _ | "tomlout" :: _ => output fs
+  | "json" :: _ | "jsonstr" :: _ | "jsonnum" :: _ | "jsondetect" :: _ => json fs
   | _ => "bad-engine"
 
 partial def loop (h : IO.FS.Stream) (out : IO.FS.Stream) : IO Unit := do
